@@ -35,6 +35,11 @@ PL = 'pwl_calibration_layer'
 
 
 def run(prog, res):
+  from ..rules import seqkind
+  seqkind.selfcheck()
+  for q in ('lattice_lib.laplacian_regularizer', 'lattice_lib.torsion_regularizer'):
+    seqkind.check_function(prog, res, prog.function(q))
+  res.floor('T3', 6)
   _lattice_laplacian(prog, res)
   _lattice_torsion(prog, res)
   for cls, k in (('LaplacianRegularizer', 1), ('HessianRegularizer', 2),
